@@ -328,7 +328,10 @@ class SymInt:
         eb, lb, hb = b
         W = ENG.W
         if hb > 2 * W:
-            raise EngineBound("left shift count range too large")
+            # the declared interval is wide, but the path condition may bound the count
+            if ENG.decide(eb > W):
+                raise EngineBound("left shift count range too large")
+            hb = W
         c = [la << lb, la << hb, ha << lb, ha << hb]
         return _mk(ea << eb, min(c), max(c))
 
@@ -394,11 +397,19 @@ class SymInt:
             k = max(ha.bit_length(), hb.bit_length(), 1)
             if k < W:
                 xa, xb = z3.Extract(k - 1, 0, ea), z3.Extract(k - 1, 0, eb)
-                q = z3.ZeroExt(W - k, z3.UDiv(xa, xb))
-                r = z3.ZeroExt(W - k, z3.URem(xa, xb))
+                xq, xr = z3.UDiv(xa, xb), z3.URem(xa, xb)
+                q = z3.ZeroExt(W - k, xq)
+                r = z3.ZeroExt(W - k, xr)
             else:
-                q = z3.UDiv(ea, eb)
-                r = z3.URem(ea, eb)
+                xa, xb = ea, eb
+                q = xq = z3.UDiv(ea, eb)
+                r = xr = z3.URem(ea, eb)
+            # theorems about unsigned division handed to the solver as redundant facts (a bit-blasted
+            # divider does not give them away cheaply): remainder < divisor, remainder/quotient <= dividend
+            if want == "div":
+                ENG.lemma(z3.Implies(xb != 0, z3.ULE(xq, xa)))
+            else:
+                ENG.lemma(z3.And(z3.Implies(xb != 0, z3.ULT(xr, xb)), z3.ULE(xr, xa)))
             if want == "div":
                 return _mk(q, la // max(hb, 1), ha // max(lb, 1))
             return _mk(r, 0, min(ha, max(hb, 1) - 1))
@@ -703,7 +714,8 @@ class Engine:
     def _check(self, *extra):
         t0 = time.time()
         self.stats["feas_queries"] += 1
-        if extra:
+        scoped = bool(extra) or self.uf_prune     # (a scope also selects z3's incremental core from the first query on)
+        if scoped:
             self.solver.push()
             self.solver.add(*extra)
         if self.uf_prune:
@@ -720,7 +732,7 @@ class Engine:
         else:
             r = self.solver.check()
         m = self.solver.model() if r == z3.sat else None
-        if extra:
+        if scoped:
             self.solver.pop()
         self.stats["solver_s"] += time.time() - t0
         if r == z3.unknown:
@@ -839,6 +851,11 @@ class Engine:
         self.pos += 1
         self._add(e == v)
         return v
+
+    def lemma(self, c):
+        """Record a VALID bit-vector fact (true under every assignment) that helps the solver;
+        being a theorem it changes neither the set of paths nor any verdict."""
+        self._add(c)
 
     def assume(self, b):
         """Constrain the path without forking; abort the path if infeasible."""
